@@ -6,6 +6,7 @@
 #include <kit/expr.hpp>
 
 #include <unifex/any_sender_of.hpp>
+#include <unifex/async_trace.hpp>
 #include <unifex/dematerialize.hpp>
 #include <unifex/done_as_optional.hpp>
 #include <unifex/finally.hpp>
@@ -278,6 +279,34 @@ long error_code(const std::exception_ptr& e) {
   catch (...) { return -9999; }
 }
 
+template <class Tok>
+struct root_rcv;
+#if UNIFEX_ENABLE_CONTINUATION_VISITATIONS
+// C20: async_trace from a leaf's receiver reports the chain of receivers up to the root receiver. Every harness erasure
+// point (bridge) on the path shows up once: leaf, its ancestors, the root node. any_sender_of<> hides its continuation
+// (it forwards only the CPOs it was declared with), so paths through it are not judged.
+template <class R>
+void check_async_trace(const R& r, LeafRec* rc) {
+  auto trace = unifex::async_trace(r);
+  usim::np_scope np;
+  World* w = g_world;
+  int depth = 0;
+  bool erased = false;
+  for (int x = w->nodes[rc->node].parent; x >= 0; x = w->nodes[x].parent) { ++depth; if (w->nodes[x].kind == K_ANY_SENDER) erased = true; }
+  if (erased) return;
+  int bridges = 0;
+  bool root = false;
+  for (auto& e : trace) {
+    if (e.continuation.type() == unifex::type_id<kit::ex::bridge>()) ++bridges;
+    if (e.continuation.type() == unifex::type_id<root_rcv<unifex::inplace_stop_token>>() || e.continuation.type() == unifex::type_id<root_rcv<kit::sim_stop_token>>()) root = true;
+  }
+  KIT_CHECK(root, "c20.async-trace", "async_trace from leaf %d (%zu entries, %d harness erasure points seen, %d expected) never reaches the root receiver: some receiver on the path does not report its continuation",
+            rc->leaf, trace.size(), bridges, depth + 1);
+  if (root) KIT_CHECK(bridges == depth + 1, "c20.async-trace", "async_trace from leaf %d passes %d harness erasure points, the path to the root has %d", rc->leaf, bridges, depth + 1);
+  usim_probe("async_trace chain checked");
+}
+#endif
+
 struct leaf_sender {
   int node;
   template <template <class...> class Variant, template <class...> class Tuple>
@@ -324,6 +353,9 @@ struct leaf_sender {
       int sch = unifex::get_scheduler(r).id;
       int al = unifex::get_allocator(r).id;
       long tg = get_tag(r);
+#if UNIFEX_ENABLE_CONTINUATION_VISITATIONS
+      check_async_trace(r, rc);
+#endif
       {
         usim::np_scope np;
         KIT_CHECK(!rc->started, "c01.leaf-restarted", "leaf %d started twice", rc->leaf);
